@@ -44,15 +44,29 @@ pub fn run(rng: &mut Rng, out: &mut Fails) {
         let s2 = softmax(&sh);
         if s.iter().zip(&s2).any(|(a, b)| !close(*a, *b, if scale > 100. { 1e-8 } else { 1e-10 })) { fail(out, "softmax", "C17.softmax.shift", format!("{:?}", x), "changed".into(), "shift-invariant".into()); }
     }
+    // every entry far below zero (and far above): the shift by the maximum must still keep exp() away from underflow / overflow
+    for n in 1..12usize {
+        for (lo, hi) in [(-2.0e4, -1.0e3), (1.0e3, 2.0e4), (-1.0e300, -1.0e299)] {
+            let x = rng.vec(n, lo, hi);
+            let s = match catch(|| softmax(&x)) { Some(s) => s, None => { fail(out, "softmax", "C17.softmax.sum1", format!("{:?}", x), "panic".into(), "non-negative, sum 1".into()); continue; } };
+            let tot: f64 = s.iter().sum();
+            if s.len() != n || s.iter().any(|v| !(*v >= 0.)) || !close(tot, 1., 1e-12) { fail(out, "softmax", "C17.softmax.sum1", format!("{:?}", x), format!("{:?} (sum {})", s, tot), "non-negative, sum 1".into()); }
+            for i in 0..n { for j in 0..n { if x[i] < x[j] && s[i] > s[j] { fail(out, "softmax", "C17.softmax.order", format!("{:?}", x), "order broken".into(), "order preserved".into()); } } }
+        }
+    }
     for n in 0..=67u64 { for k in 0..=n {
         let w = binom_u128(n, k);
         if w < (1u128 << 64) {
-            let g = binom_coeff(n, k);
+            let g = match catch(|| binom_coeff(n, k)) { Some(g) => g, None => { fail(out, "binom_coeff", "C17.binom.exact", format!("n={} k={}", n, k), "panic (arithmetic overflow)".into(), format!("{}", w)); continue; } };
             if g as u128 != w { fail(out, "binom_coeff", "C17.binom.exact", format!("n={} k={}", n, k), format!("{}", g), format!("{}", w)); }
         }
     } }
     for (n, k) in [(100u64, 5u64), (1000, 3), (200, 8), (80, 20), (70, 30), (68, 24)] {
         let w = binom_u128(n, k);
-        if w < (1u128 << 64) && binom_coeff(n, k) as u128 != w { fail(out, "binom_coeff", "C17.binom.exact", format!("n={} k={}", n, k), format!("{}", binom_coeff(n, k)), format!("{}", w)); }
+        if w < (1u128 << 64) {
+            match catch(|| binom_coeff(n, k)) {
+                None => fail(out, "binom_coeff", "C17.binom.exact", format!("n={} k={}", n, k), "panic (arithmetic overflow)".into(), format!("{}", w)),
+                Some(g) => if g as u128 != w { fail(out, "binom_coeff", "C17.binom.exact", format!("n={} k={}", n, k), format!("{}", g), format!("{}", w)); } }
+        }
     }
 }
